@@ -83,6 +83,11 @@ func AnswerRounds(s Source, steps []Step, callers []CallSpec, errEvery int) ([]S
 			maxLen = len(c.Reqs)
 		}
 	}
+	type errSeen struct {
+		text string
+		code int32
+	}
+	var errTexts []errSeen
 	var answered []int // tags answered in earlier steps: the server may send such a result once more
 	for r := 0; r < maxLen; r++ {
 		var tags []int
@@ -124,6 +129,17 @@ func AnswerRounds(s Source, steps []Step, callers []CallSpec, errEvery int) ([]S
 				if errEvery > 0 && s.Int("err", errEvery) == 0 {
 					it.ErrCode = int32(400 + s.Int("errcode", 100))
 					it.ErrText = fmt.Sprintf("GENERATED_ERROR_%d", tg)
+					if len(errTexts) > 0 && s.Int("err-text-again", 2) == 0 {
+						// the text of an error says what is wrong, the code how: servers give the same text under several
+						// codes (CHAT_WRITE_FORBIDDEN is both a 400 and a 403)
+						prev := errTexts[s.Int("err-text-of", len(errTexts))]
+						it.ErrText = prev.text
+						if it.ErrCode == prev.code {
+							it.ErrCode++
+						}
+						feats["same-error-text-under-another-code"]++
+					}
+					errTexts = append(errTexts, errSeen{it.ErrText, it.ErrCode})
 					feats["rpc-error"]++
 				}
 				form := "plain"
